@@ -233,7 +233,11 @@ def analyse(cfg):
         for ro in REPLY_ON:
             w = Walker(f, {"outcome": oc, "reply_on": ro}, watch, classify, decide=decide)
             try:
-                table[(oc, ro)] = _merge_loops({_flatten(sq) for sq in w.run()})
+                seqs = _merge_loops({_flatten(sq) for sq in w.run()})
+                if oc == "Err":
+                    # the untouched result handed on whole (`(other, _) => other`) is, in an Err cell, `Err(e)` itself
+                    seqs = {tuple(("ret", "Err(e)") if e == ("ret", "outcome-itself") else e for e in sq) for sq in seqs}
+                table[(oc, ro)] = seqs
             except RuntimeError as e:
                 problems.append(str(e))
                 table[(oc, ro)] = set()
